@@ -454,10 +454,13 @@ def parseLine(raw, eols=(CRLF, LF, CR ), kind="event line"):
     Raise error if eol not found before MAX_LINE_SIZE
     """
     while True:
-        for eol in eols:  # loop over eols unless found
-            index = raw.find(eol)  # not found index == -1
-            if index >= 0:
-                break
+        index = -1  # find earliest eol of any kind, longest kind if at same index
+        for sep in eols:
+            i = raw.find(sep)  # not found i == -1
+            if i >= 0 and (index < 0 or i < index or
+                           (i == index and len(sep) > len(eol))):
+                index = i
+                eol = sep
 
         if index < 0:  # not found
             if len(raw) > MAX_LINE_SIZE:
